@@ -197,7 +197,7 @@ def RM.averageStrategy (rm : RM Î±) (coalitions : List Nat) : Except Err (List Î
   let mc â† rm.getMetacoalitionId coalitions
   let rank â† rm.rankOf mc
   let row â† getIdx rm.strategy rank
-  let cum â† if row.all (fun x => decide (x = 0)) then onesWithout rm.m (players mc) else pure row
+  let cum â† (if row.all (fun x => decide (x = 0)) then onesWithout rm.m (players mc) else pure row)
   -- cum[coalitions_to_player_ids] * (coalitions_to_player_ids > -0.5): index âˆ’1 wraps, then is masked
   let coals â† rm.pidMap.mapM (fun p =>
     if p < 0 then (if cum.isEmpty then Except.error Err.index else pure (0 : Î±))
